@@ -34,7 +34,7 @@ import (
 	"verif/internal/model"
 )
 
-const rule = "cases: constructor argument tuples for every structure that has both a constructor and a validator - Certificate (+builder), KeysAndCert, Destination, RouterIdentity, RouterAddress, RouterInfo, LeaseSet, LeaseSet2, EncryptedLeaseSet, OfflineSignature, Signature, Mapping (also maps of 125..135 pairs whose encoded body lies within +-2000 bytes of the 65,535 limit, through GoMapToMapping, MappingValues.Add + ValuesToMapping and NewRouterAddress) - valid tuples and single-defect variants of the kinds the validators document (key length != its type's length at any key index, KeyLen != len(KeyData), 0/17 keys or leases, flag <-> offline block mismatch, reserved flag bits, signature or key length != type, unknown type, zero expires, empty transport style, wrong padding size, prohibited key type). Oracles: constructor ok => Validate()==nil; Validate()==nil (constructed or parsed) => Bytes() ok => Read* ok with empty remainder and the same bytes; defect => the constructor rejects, and the validator rejects the same defect when it is presented through the parser or exported fields. Expiry rules are excluded (far-future dates). Non-trivial: a defect variant, or a valid tuple with >= 2 optional parts; distinct by (kind, defect, arguments)."
+const rule = "cases: constructor argument tuples for every structure that has both a constructor and a validator - Certificate (+builder), KeysAndCert, Destination, RouterIdentity, RouterAddress, RouterInfo, LeaseSet, LeaseSet2, EncryptedLeaseSet, OfflineSignature, Signature, Mapping (also maps of 125..135 pairs whose encoded body lies within +-2000 bytes of the 65,535 limit, through GoMapToMapping, MappingValues.Add + ValuesToMapping and NewRouterAddress) - valid tuples and single-defect variants of the kinds the validators document (key length != its type's length at any key index, KeyLen != len(KeyData), 0/17 keys or leases, flag <-> offline block mismatch, reserved flag bits, signature or key length != type, unknown type, zero expires, empty or over-long transport style, nil option map, wrong padding size, prohibited key type). Oracles: constructor ok => Validate()==nil; Validate()==nil (constructed or parsed) => Bytes() ok => Read* ok with empty remainder and the same bytes; defect => the constructor rejects, and the validator rejects the same defect when it is presented through the parser or exported fields. Expiry rules are excluded (far-future dates). Non-trivial: a defect variant, or a valid tuple with >= 2 optional parts; distinct by (kind, defect, arguments)."
 
 func TestMain(m *testing.M) { ev.Main(m, "C14", rule) }
 
@@ -541,7 +541,21 @@ func checkAddr(c Case, r *ev.Rec) error {
 	if c.Defect == "empty-style" {
 		style = ""
 	}
-	a, err := router_address.NewRouterAddress(m.Cost, time.Unix(0, 0), style, pairsToMap(c.Addr.Options))
+	if c.Defect == "style-too-long" {
+		style = string(model.Fill(256+c.N%50, 6))
+		a, err := router_address.NewRouterAddress(m.Cost, time.Unix(0, 0), style, pairsToMap(c.Addr.Options))
+		r.Class("addr:defect:style-too-long")
+		if err == nil {
+			return fmt.Errorf("NewRouterAddress accepted a transport style of %d bytes (limit 255); Validate on the result: %v", len(style), a.Validate())
+		}
+		r.NonTrivialStr(c, "addr", "style-too-long", fmt.Sprint(len(style)))
+		return nil
+	}
+	opts := pairsToMap(c.Addr.Options)
+	if len(opts) == 0 && c.N%2 == 0 {
+		opts = nil // a nil map is "no options", like an empty one
+	}
+	a, err := router_address.NewRouterAddress(m.Cost, time.Unix(0, 0), style, opts)
 	if style == "" {
 		r.Class("addr:defect:empty-style")
 		if err == nil {
@@ -892,8 +906,14 @@ func genCase(t *rapid.T) Case {
 			s.Style = "53535532"
 		}
 		c.Addr = &s
-		if rapid.IntRange(0, 4).Draw(t, "emptystyle") == 0 {
+		switch rapid.IntRange(0, 6).Draw(t, "emptystyle") {
+		case 0:
 			c.Defect = "empty-style"
+		case 1:
+			c.Defect = "style-too-long"
+		}
+		if rapid.IntRange(0, 3).Draw(t, "noopts") == 0 {
+			s.Options = nil
 		}
 	case "ri":
 		s := gen.RouterInfoG(t, "ri", []int{7})
